@@ -53,43 +53,21 @@ partial def failsYaml (fuel : Nat) (e o : Val) (p : TPath) : List Json :=
       | .map a, .map b => via a b
       | _, _ => [own]
     | some .build => match toBuild e, toBuild o with
-      | some a, some b => via a b
+      | .ok a, .ok b => via a b
       | _, _ => [own]
     | some .dependsOn => match intoMap dependsOnDefault e, intoMap dependsOnDefault o with
-      | .ok (some a), .ok (some b) => via a b
+      | .ok a, .ok b => via a b
       | _, _ => [own]
     | some .networks => match intoMap .null e, intoMap .null o with
-      | .ok (some a), .ok (some b) => via a b
+      | .ok a, .ok b => via a b
       | _, _ => [own]
     | some .logging => match e, o with
-      | .map a, .map b =>
-        match ifaceEq ((lookup "driver" b).getD .null) ((lookup "driver" a).getD .null) with
-        | none => [own]
-        | some _ => via a b
+      | .map a, .map b => via a b
       | _, _ => [own]
     | some .ulimit => match o with
       | .map kvs => via kvs kvs
       | _ => [own]
     | _ => [own]
-
-/-- ipam merges whose outcome can depend on Go's aliasing of nested maps (modelled with value semantics):
-an override pool that carries a mapping-valued field -/
-def ipamHazard (over : Val) : Bool :=
-  match over with
-  | .map top =>
-    match lookup "networks" top with
-    | some (.map nets) => nets.any fun (_, n) =>
-      match n with
-      | .map nkv => match lookup "ipam" nkv with
-        | some (.map ikv) => match lookup "config" ikv with
-          | some (.seq pools) => pools.any fun pool => match pool with
-            | .map f => f.any fun (_, v) => match v with | .map _ => true | _ => false
-            | _ => false
-          | _ => false
-        | _ => false
-      | _ => false
-    | _ => false
-  | _ => false
 
 /-- is some failure of this merge inside `mergeIPAMConfig`?  (then which one is met first is left open) -/
 def touchesIpam (over : Val) : Bool :=
@@ -127,8 +105,8 @@ def mergeSeq : Handler := fun args =>
     | [] => outJson (.ok acc) [] hz
     | o :: r =>
       let m := if ext then extendService acc o else merge acc o
-      let hz' := hz || ipamHazard o || (seen && touchesIpam o)
-      let seen' := seen || touchesIpam o
+      let hz' := hz
+      let seen' := seen
       match m with
       | .ok v =>
         if uni then
@@ -194,8 +172,8 @@ def docs : Handler := fun args =>
     | d :: r =>
       let (cfg, paths) := CV.Reset.readDoc d
       let b := CV.Reset.applyNull paths acc TPath.root
-      let hz' := hz || ipamHazard cfg || (seen && touchesIpam cfg)
-      let seen' := seen || touchesIpam cfg
+      let hz' := hz
+      let seen' := seen
       match merge b cfg with
       | .ok m =>
         match Unicity.enforceTop m with
